@@ -28,10 +28,11 @@ class Unsupported(Exception):
 
 
 class Tok(object):
-    __slots__ = ('kind',)
+    __slots__ = ('kind', 'val')
 
-    def __init__(self, kind='DEF'):
+    def __init__(self, kind='DEF', val=None):
         self.kind = kind
+        self.val = val
 
     def __repr__(self):
         return self.kind
@@ -39,6 +40,56 @@ class Tok(object):
 
 def DEF():
     return Tok('DEF')
+
+
+class Ord(Tok):
+    """abstract float that is only compared: a position on an abstract line.  Knots sit at integer ranks (equal knots share a rank),
+    a parameter strictly between two knots at a half-integer rank.  Code that touches these values only through comparisons is
+    decided exactly for *every* real assignment with this order type."""
+    __slots__ = ('rank',)
+
+    def __init__(self, rank):
+        Tok.__init__(self, 'DEF')
+        self.rank = rank
+
+    def __repr__(self):
+        return 'Ord(%s)' % self.rank
+
+
+class Gap(Tok):
+    """difference of two ordered values: only its sign and whether it is zero are known.  A non-zero gap is assumed to exceed every
+    tolerance it is compared with (distinct knots differ by more than the tolerances) - stated as an assumption in the evidence."""
+    __slots__ = ('sign',)
+
+    def __init__(self, sign):
+        Tok.__init__(self, 'DEF')
+        self.sign = sign
+
+    def __repr__(self):
+        return 'Gap(%+d)' % self.sign
+
+
+def order_compare(l, r, op):
+    """decide a comparison between ordered abstractions; None if not decidable"""
+    import operator as _o
+    ops = {ast.Lt: _o.lt, ast.LtE: _o.le, ast.Gt: _o.gt, ast.GtE: _o.ge, ast.Eq: _o.eq, ast.NotEq: _o.ne}
+    if type(op) not in ops:
+        return None
+    if isinstance(l, Ord) and isinstance(r, Ord):
+        return ops[type(op)](l.rank, r.rank)
+    # an untouched initial fill still has its literal value
+    if isinstance(l, Tok) and l.kind == 'PH0' and l.val is not None and isinstance(r, (int, float)) and not isinstance(r, bool):
+        return ops[type(op)](l.val, r)
+    if isinstance(r, Tok) and r.kind == 'PH0' and r.val is not None and isinstance(l, (int, float)) and not isinstance(l, bool):
+        return ops[type(op)](l, r.val)
+    # gap vs a (small, positive) tolerance or zero: a non-zero gap exceeds it
+    def gapval(g):
+        return g.sign * 10 ** 9
+    if isinstance(l, Gap) and isinstance(r, (int, float)) and not isinstance(r, bool):
+        return ops[type(op)](gapval(l), r)
+    if isinstance(r, Gap) and isinstance(l, (int, float)) and not isinstance(l, bool):
+        return ops[type(op)](l, gapval(r))
+    return None
 
 
 class Bag(object):
@@ -107,6 +158,8 @@ class SK(object):
         self.cur_stmt = None
         self.abstracted = abstracted or {}
         self.steps = 0
+        self.decisions = None       # None: undecidable float comparisons are unsupported; list: replayed / extended fork decisions
+        self.trace = []
 
     # ------------------------------------------------------------------ name resolution
     def lookup_global(self, mod, name):
@@ -192,6 +245,8 @@ class SK(object):
         for x in (a, b):
             if x is None or isinstance(x, (list, dict)):
                 raise Violation('SK2', 'placeholder %r used in arithmetic' % (x,), node)
+        if isinstance(a, Ord) and isinstance(b, Ord) and op is o.sub:
+            return Gap((a.rank > b.rank) - (a.rank < b.rank))
         if isinstance(a, Tok) or isinstance(b, Tok):
             for x in (a, b):
                 if isinstance(x, Tok) and x.kind == 'PH0':
@@ -252,15 +307,23 @@ class SK(object):
         for op, c in zip(e.ops, e.comparators):
             r = self.ev(c, env)
             if isinstance(l, Tok) or isinstance(r, Tok):
+                dec = order_compare(l, r, op)
+                if dec is not None:
+                    if not dec:
+                        return False
+                    l = r
+                    continue
                 if isinstance(op, (ast.Is, ast.IsNot)):
                     res = (l is r) if isinstance(op, ast.Is) else (l is not r)
                     if not res:
                         return False
                     l = r
                     continue
-                hook = env.get('__float_compare__')
-                if hook is not None:
-                    res = hook(self, e, l, r)
+                if self.decisions is not None:
+                    # PH0 is the literal initial fill 0.0/1.0 of this run: comparisons of it with a literal are concrete only for ==/!= 0.0
+                    k = len(self.trace)
+                    res = self.decisions[k] if k < len(self.decisions) else True
+                    self.trace.append(res)
                     if not res:
                         return False
                     l = r
@@ -316,7 +379,7 @@ class SK(object):
     def e_ListComp(self, e, env):
         # a float literal as the element of an initialiser comprehension is a placeholder fill
         if isinstance(e.elt, ast.Constant) and isinstance(e.elt.value, float):
-            return [Tok('PH0') for _ in self.comp(e.generators, env, lambda en: 0)]
+            return [Tok('PH0', e.elt.value) for _ in self.comp(e.generators, env, lambda en: 0)]
         if isinstance(e.elt, ast.Constant) and e.elt.value is None:
             return [Tok('PHN') for _ in self.comp(e.generators, env, lambda en: 0)]
         return list(self.comp(e.generators, env, lambda en: self.ev(e.elt, en)))
@@ -552,6 +615,8 @@ def _isinst(sk, n, x, t):
 
 
 def _float(sk, n, x):
+    if isinstance(x, (Ord, Gap)):
+        return x
     if isinstance(x, Tok):
         if x.kind == 'PHN':
             raise Violation('SK2', 'float(None placeholder)', n)
@@ -590,7 +655,7 @@ BUILTINS = {
     'range': Py(lambda sk, n, *a: list(range(*a)), 'range'), 'len': Py(lambda sk, n, x: _len(sk, n, x), 'len'),
     'min': Py(_minmax(min), 'min'), 'max': Py(_minmax(max), 'max'),
     'int': Py(lambda sk, n, x=0: _int(sk, n, x), 'int'), 'float': Py(_float, 'float'),
-    'abs': Py(lambda sk, n, x: DEF() if isinstance(x, Tok) else abs(x), 'abs'), 'round': Py(_round, 'round'),
+    'abs': Py(lambda sk, n, x: (Gap(abs(x.sign)) if isinstance(x, Gap) else DEF()) if isinstance(x, Tok) else abs(x), 'abs'), 'round': Py(_round, 'round'),
     'zip': Py(lambda sk, n, *a: list(zip(*[sk.iterate(x, n) for x in a])), 'zip'),
     'enumerate': Py(lambda sk, n, x, *s: list(enumerate(sk.iterate(x, n), *s)), 'enumerate'),
     'isinstance': Py(_isinst, 'isinstance'), 'list': Py(lambda sk, n, *a: list(*a), 'list'), 'tuple': Py(lambda sk, n, *a: tuple(*a), 'tuple'),
@@ -651,6 +716,27 @@ def run_case(m, fkey, args, kw, abstracted=None, post=None):
     except Violation as v:
         return (v.rule, '%s %s' % (v.msg, v.where()))
     return None
+
+
+def explore(make_call, max_paths=4096):
+    """enumerate every outcome of the undecidable float comparisons (fork points) of one case by decision replay (DFS).
+    make_call(sk) runs the case on a fresh interpreter and returns its result or raises Violation.
+    -> (number of paths, first failure (rule, msg, decisions) or None, truncated?)"""
+    stack = [[]]
+    n = 0
+    first = None
+    while stack:
+        prefix = stack.pop()
+        n += 1
+        if n > max_paths:
+            return n - 1, first, True
+        res, trace = make_call(prefix)
+        if res is not None and first is None:
+            first = (res[0], res[1], list(trace))
+        for i in range(len(prefix), len(trace)):
+            if trace[i]:
+                stack.append(trace[:i] + [False])
+    return n, first, False
 
 
 class Tally(object):
